@@ -58,7 +58,7 @@ func methodsFor(r *rand.Rand) string {
 	case k < 16:
 		return "*"
 	case k < 17:
-		return "GET,POST"
+		return pick(r, []string{"GET,POST", "GET,POST", "get,post", "Get,POST", "post,GET,put"})
 	case k < 18:
 		return "get"
 	case k < 19:
